@@ -62,7 +62,14 @@ class StmtMixin(object):
         return ('continue',)
 
     def exec_Assert(self, node, st):
-        c = self.ev_truth(node.test, st)
+        if self.ct.kind == 'lemma':
+            self.spec_mode += 1            # the assertions of a lemma are specification text (quantifiers, spec functions)
+            try:
+                c = self.ev_truth(node.test, st)
+            finally:
+                self.spec_mode -= 1
+        else:
+            c = self.ev_truth(node.test, st)
         if self.ct.kind == 'lemma':
             self.oblige(st, 'lemma-assert', 'line%d' % node.lineno, c, ast.unparse(node.test))
             st.assume(c)
